@@ -142,7 +142,7 @@ mutual
           have hfn : flushN c.1 [] = textNode c.1 := by simp [flushN]
           simp only [Bool.false_eq_true, if_false, htp]
           simp [buildN_wsP cfg _ hwi, buildN_opn_false, buildN_txt cfg h1, buildN_cls, hda, hfl, hek,
-            hvne, hfn, textNode_reverse]
+            hfn, textNode_reverse]
         | none =>
           have hkids := fun rest cur st =>
             buildN_kids cfg h1 h2 kids hk (i + 1) e he true ws rest [] (fun _ => rfl) cur st
@@ -150,10 +150,10 @@ mutual
           have hwei : wsOnly (e ++ indentStr i) = true := by simp [wsOnly_append, he, hwi]
           simp only [hne, Bool.not_false] at hkids ⊢
           cases ws
-          · simp [buildN_wsP cfg _ hwi, buildN_opn_false, buildN_cls, hda, hfl, hkids, hvne, hfx]
+          · simp [buildN_wsP cfg _ hwi, buildN_opn_false, buildN_cls, hda, hfl, hkids, hfx]
           · have hcg := fun ts cur st => buildN_congr ts e [] (lstrip_ws e he) cur st
             simp [buildN_wsP cfg _ hwi, buildN_wsP cfg _ he, buildN_wsP cfg _ hwei, buildN_opn_false, buildN_cls,
-              hda, hfl, hcg, hkids, hvne, flushN_append_ws _ _ hwei, hfx]
+              hda, hfl, hcg, hkids, flushN_append_ws _ _ hwei, hfx]
     | _ => simp [Node.isTag] at ht
   theorem buildN_kids (cfg : Cfg) (h1 : TextTblOk cfg.textTbl) (h2 : AttrTblOk cfg.attrTbl)
       (ks : Nodes) (ho : ks.ordinaryKids cfg.noesc = true)
